@@ -87,6 +87,7 @@ def run(ctx):
                             'the cassette / a recording is written while replaying', witness=d.path_to(n, s),
                             entry=owner.qualname, exit=rm.exit_kind(n)))
 
+    rm.replay_idle_clause(ctx, res, 'C02', 'C02.g', 'every exit of play() resets counter / outputs / playback recording (ordinals restart at 1)')
     # ---------------- C02.a operation
     d = doms['operation']
     fac, deco, cl = roles.closures['operation']
